@@ -23,7 +23,8 @@ Generator soundness (from the code and its callers):
 * LinearAxis offsets after slicing are not asserted (DESIGN.md section 5);
 * min / max only for real dtypes; in-place arithmetic only for eager objects;
 * lazy objects: no ``None`` together with a list/mask index (dask 2026.8 raises inside
-  ``dask.array.slicing`` for ``x[None, [0, 1]]`` - a dask defect, not abTEM code).
+  ``dask.array.slicing`` for ``x[None, [0, 1]]``) and slice bounds within [-n, n] (dask
+  returns a non-empty result for ``x[-n-1::-1]``) - dask defects, not abTEM code.
 Base-axis float fields are compared to 1e-12 (abTEM re-derives sampling from
 extent / gpts whenever it rebuilds an object), everything else exactly.
 """
@@ -137,6 +138,12 @@ def getitem_case(draw):
         it = draw(index_item(n))
         if it["kind"] == "masklist" and n == 0:
             it = {"kind": "mask", "mask": []}
+        if it["kind"] == "slice" and spec["lazy"]:
+            # dask (2026.8) mis-normalises out-of-range slice bounds with a negative step
+            # (`da_array[-n-1::-1]` is not empty as in NumPy): lazy objects get in-range bounds
+            for bound in ("start", "stop"):
+                if it[bound] is not None:
+                    it[bound] = max(-n, min(n, it[bound]))
         items.append(it)
     # NumPy advanced-indexing soundness: at most one list/mask, and no integer with it
     adv = [k for k, it in enumerate(items) if it["kind"] in ("list", "nparray", "mask", "masklist")]
